@@ -95,7 +95,18 @@ pub fn bytes_per_row(width: u32, bpp: u32) -> usize {
 }
 
 pub fn gen_image<C: ImgCol>(d: &mut Dec, r: i32, max: u32) -> ImageItem {
-    let size = Size::new(d.size(max), d.size(max));
+    // one image in ten is a long strip (a side of 250..=300 px) when the caller allows >= 17 px
+    let size = if max >= 17 && d.ratio(1, 10) {
+        let long = d.u(250, 300);
+        let short = d.u(1, 3);
+        if d.bool() {
+            Size::new(long, short)
+        } else {
+            Size::new(short, long)
+        }
+    } else {
+        Size::new(d.size(max), d.size(max))
+    };
     let n = bytes_per_row(size.width, C::BPP) * size.height as usize;
     let mut data = Vec::with_capacity(n);
     let mode = d.u(0, 3);
@@ -214,7 +225,8 @@ pub const UNMAPPED: &[char] = &['\u{1}', '\t', '\u{7f}', '\u{80}', '\u{2603}', '
 /// A string over the font's mapping with unmapped characters and line breaks.
 pub fn gen_string(d: &mut Dec, font: usize, max_len: u32, newlines: bool, crlf: bool) -> String {
     let chars = font_chars(font);
-    let n = d.u(0, max_len);
+    // one string in twenty is long (60..=120 characters) when the caller allows >= 10
+    let n = if max_len >= 10 && d.ratio(1, 20) { d.u(60, 120) } else { d.u(0, max_len) };
     let mut s = String::new();
     for _ in 0..n {
         match d.u(0, 15) {
